@@ -2,6 +2,7 @@ CONSTANTS
   Dev = {}
   Alphabet <- AlphaTok
   MaxLen = 6
+  Prune = TRUE
   DepthProbe = {0, 1, 2, 256}
 INIT Init
 NEXT Next
